@@ -159,6 +159,17 @@ def run(R):
         cases.append(dict(i=i, aff=aff, akind=akind, layout=layout, shape=shape, dt=dt, scaling=scaling,
                           opts=opts, sharding=sh, gz=gz, nifti2=nifti2, input_max=input_max))
 
+    # stratified, not left to the random draw: wide unsigned files WITH header scaling converted with
+    # --ignore-scaling (the stored integers are the values) and values float32 cannot represent
+    for k, (dt_s, n2, scl, ign) in enumerate([("uint32", False, True, True), ("uint32", True, True, True),
+                                              ("uint64", True, True, True), ("uint64", False, True, True),
+                                              ("uint32", False, False, False), ("uint64", True, False, False),
+                                              ("uint16", False, True, True), ("uint8", True, True, True)]):
+        aff, akind = random_affine(rng, np)
+        cases.append(dict(i=n_cases + k, aff=aff, akind=akind, layout="3d", shape=[2, 3, 2], dt=dt_s, scaling=scl,
+                          opts=(["--ignore-scaling"] if ign else []), sharding=None, gz=True, nifti2=n2,
+                          input_max=False, big=True))
+
     prepared = []
     for c in cases:
         i = c["i"]
@@ -166,10 +177,17 @@ def run(R):
             data = np.zeros(c["shape"], dtype=[("R", "u1"), ("G", "u1"), ("B", "u1")])
         else:
             data = (np.arange(int(np.prod(c["shape"]))) % 100).reshape(c["shape"]).astype(c["dt"])
+            if c.get("big"):
+                top = int(np.iinfo(c["dt"]).max)
+                data.flat[1] = min(top, 2 ** 24 + 1)
+                data.flat[2] = min(top, 2 ** 31 + 5)
+                data.flat[3] = top
+        c["stored_values"] = None if c["dt"] in ("rgb", "complex64") else [v.item() for v in data.ravel()[:64]]
         cls = nib.Nifti2Image if c["nifti2"] else nib.Nifti1Image
         img = cls(data, c["aff"], dtype=data.dtype)
         if c["scaling"]:
-            img.header.set_slope_inter(rng.choice([2.0, 0.5, 1.0]), rng.choice([0.0, 1.0, -3.5]))
+            img.header.set_slope_inter(2.0 if c.get("big") else rng.choice([2.0, 0.5, 1.0]),
+                                       rng.choice([0.0, 1.0, -3.5]))
         path = os.path.join(R.tmp, f"v{i}.nii")
         nib.save(img, path)
         dest = os.path.join(R.tmp, f"d{i}")
@@ -244,7 +262,8 @@ def run(R):
         want_rc = 4 if mi[5] == Atom("true") else 0
         if impl != ["ok", want_rc]:
             R.disagree("generate-info exit status vs model", case, impl, ["ok", want_rc])
-            continue
+            if not (impl[0] == "ok" and impl[1] in (0, 4)):
+                continue
         try:
             with open(os.path.join(dest, "info_fullres.json")) as f:
                 info = json.load(f)
@@ -300,6 +319,16 @@ def run(R):
                 (impl[1] == 0 and info["data_type"] != in_dt):
             R.violation("data_type cannot hold the values and the run did not flag it", case,
                         {"input": in_dt, "guessed": info["data_type"], "rc": impl[1]})
+        if in_dt in NG_TYPES and c.get("stored_values") is not None and not c["input_max"]:
+            # the values of the volume (stored numbers: no scaling applies, or it is to be ignored) are of a
+            # type Neuroglancer has: the stated type must represent every one of them
+            st = np.dtype(info["data_type"]) if info["data_type"] in NG_TYPES else None
+            lost = [v for v in c["stored_values"]
+                    if st is None or (np.issubdtype(st, np.integer) and not 0 <= v <= int(np.iinfo(st).max))
+                    or (st == np.float32 and float(np.float32(v)) != v)]
+            if lost:
+                R.violation("data_type cannot hold the values of the volume", case,
+                            {"values_type": in_dt, "stated": info["data_type"], "not_representable": lost[:3]})
         for j in range(3):
             norm2 = sum(Aq[a][j] ** 2 for a in range(3)) * 10 ** 12
             if abs(Fraction(res[j]) ** 2 - norm2) > norm2 * TOL * 4:
@@ -398,6 +427,75 @@ def run(R):
         elif why_a is not None and why_b is not None:
             R.violation("after a refused --generate-info the destination holds a mixed info/transform pair",
                         case, {"vs_first": why_a, "vs_second": why_b, "impl": second})
+
+    # (c) the same FILE NAME holding different volumes one after the other, in this one process
+    specs = [("uint8", None), ("uint16", None), ("uint32", None), ("int16", None), ("float32", None),
+             ("uint16", "scaled"), ("uint8", "scaled"), ("rgb", None), ("uint16", "4d"), ("uint8", "ignore-scaled")]
+
+    def expected_of(spec):
+        dt_s, mode = spec
+        if dt_s == "rgb":
+            return "uint8", 3
+        ch = 2 if mode == "4d" else 1
+        if mode == "scaled":
+            return "float32", ch
+        return (dt_s if dt_s in NG_TYPES else "float32"), ch
+
+    def write_spec(path, spec):
+        dt_s, mode = spec
+        shape = [2, 3, 2] + ([2] if mode == "4d" else [])
+        if dt_s == "rgb":
+            data = np.zeros(shape, dtype=[("R", "u1"), ("G", "u1"), ("B", "u1")])
+        else:
+            data = (np.arange(int(np.prod(shape))) % 50).reshape(shape).astype(dt_s)
+        img = nib.Nifti1Image(data, np.diag([1.5, 2.0, 0.5, 1.0]), dtype=data.dtype)
+        if mode in ("scaled", "ignore-scaled"):
+            img.header.set_slope_inter(2.0, 1.0)
+        nib.save(img, path)
+        return shape
+
+    for k in range(30 if quick else 200):
+        s1 = specs[k % len(specs)]
+        s2 = specs[(k * 3 + 1 + k // len(specs)) % len(specs)]
+        if expected_of(s1) == expected_of(s2):
+            s2 = specs[(specs.index(s2) + 1) % len(specs)]
+        path = os.path.join(R.tmp, f"same_{k}.nii")
+        via = ["command", "volume_file_to_info", "nibabel_image_to_info"][k % 3]
+        results = []
+        for step, spec in enumerate((s1, s2)):
+            shape = write_spec(path, spec)
+            ign = spec[1] == "ignore-scaled"
+            dest = os.path.join(R.tmp, f"same_{k}_{step}")
+            os.makedirs(dest)
+
+            def one():
+                if via == "command":
+                    volume_to_precomputed.main(["volume-to-precomputed", "--generate-info", path, dest]
+                                               + (["--ignore-scaling"] if ign else []))
+                elif via == "volume_file_to_info":
+                    volume_reader.volume_file_to_info(path, dest, ignore_scaling=ign, options={})
+                else:
+                    fi, _jt, _dt, _imp = volume_reader.nibabel_image_to_info(nib.load(path), ignore_scaling=ign)
+                    return json.loads(fi)
+                with open(os.path.join(dest, "info_fullres.json")) as f:
+                    return json.load(f)
+            results.append((spec, shape, outcome_of(one)))
+        case = {"sequence": "same file name, two volumes, one process (" + via + ")",
+                "first": list(s1), "second": list(s2)}
+        R.case(case, nontrivial=True)
+        R.count("seq:same-path:" + via)
+        for which, (spec, shape, r) in zip(("first", "second"), results):
+            want_dt, want_ch = expected_of(spec)
+            if r[0] != "ok":
+                R.violation(f"info generation failed for the {which} volume written at the path", case,
+                            {"impl": r})
+                break
+            got = [r[1].get("data_type"), r[1].get("num_channels"), r[1]["scales"][0].get("size")]
+            if got != [want_dt, want_ch, shape[:3]]:
+                R.violation(f"info of the {which} volume written at this path does not describe that volume "
+                            "(data type / channel count / size)", case,
+                            {"got": got, "want": [want_dt, want_ch, shape[:3]]})
+                break
 
     # (b) the same loaded image object used twice
     n_obj = 60 if quick else 400
